@@ -172,6 +172,11 @@ class RankFacts:
             return None
         if s.op in ("inv", "neg", "not"):
             return self.rank(s.args[0], depth + 1)
+        if fn0 == "torch.where" and len(s.args) == 4:
+            rs = [self.rank(a, depth + 1) for a in s.args[1:] if isinstance(a, S) and not is_scalarish(a)]
+            if rs and all(r is not None for r in rs):
+                return max(rs)
+            return None
         if s.op == "meth":
             base, name = s.args[0], s.args[1]
             if name in ("float", "int", "long", "bool", "to", "clone", "contiguous", "detach", "double", "abs", "exp", "log", "clamp", "scatter", "masked_fill", "type_as"):
@@ -301,6 +306,14 @@ def batch_global(n: S, ranks: Optional[RankFacts] = None) -> Optional[Hit]:
         if is_scalarish(a[0]):
             return None
         return Hit(n, "squeeze-all", a[0], ".squeeze() without dim also removes the batch axis when the batch size is 1")
+    if o == "meth" and a[1] == "squeeze" and ranks is not None:
+        d = _kw(a[2:], "dim")
+        if d is None and _plain_args(a[2:]):
+            d = _plain_args(a[2:])[0]
+        di = _cint(d) if d is not None else None
+        r = ranks.rank(a[0]) if di is not None else None
+        if r is not None and (di == 0 or di == -r) and not is_scalarish(a[0]):
+            return Hit(n, "squeeze-batch", a[0], f".squeeze({di}) on a rank-{r} batch-leading tensor squeezes the BATCH axis itself when the batch size is 1")
     if o == "meth" and a[1] in ("flatten",) and len(a) == 2:
         return Hit(n, "flatten", a[0], ".flatten() merges the batch axis")
     if o == "meth" and a[1] in ("view", "reshape") and len(a) == 3 and _cint(a[2]) == -1:
